@@ -303,4 +303,56 @@ theorem lookupOuts_eqOff (H : List Name) (ρ ρ' : Env V) (outs : List Name) (h 
     simp only [lookupOuts]
     rw [h o (ho o (by simp)), ih (fun x hx => ho x (by simp [hx]))]
 
+/-! ### writing equivalent bodies back into a node -/
+
+/-- bodies pairwise equal as functions of (enclosing environment, arguments) -/
+def BodiesEquiv (sub : Env V → Graph → List (Option V) → Option (List V)) :
+    List (String × Graph) → List (String × Graph) → Prop
+  | [], [] => True
+  | x :: a, y :: b => (∀ ρ vs, sub ρ x.2 vs = sub ρ y.2 vs) ∧ BodiesEquiv sub a b
+  | _, _ => False
+
+theorem bodies_map_eq (sub : Env V → Graph → List (Option V) → Option (List V)) (ρ : Env V)
+    (a : List (String × Graph)) : ∀ b, BodiesEquiv sub a b →
+    (a.map fun sg => fun vs => sub ρ sg.2 vs) = (b.map fun sg => fun vs => sub ρ sg.2 vs) := by
+  induction a with
+  | nil => intro b h; cases b with
+    | nil => rfl
+    | cons _ _ => exact absurd h (by simp [BodiesEquiv])
+  | cons x a ih => intro b h; cases b with
+    | nil => exact absurd h (by simp [BodiesEquiv])
+    | cons y b =>
+      obtain ⟨hxy, hr⟩ := h
+      simp only [List.map_cons, ih b hr]
+      congr 1
+      funext vs
+      exact hxy ρ vs
+
+theorem bodies_isEmpty (sub : Env V → Graph → List (Option V) → Option (List V))
+    (a b : List (String × Graph)) (h : BodiesEquiv sub a b) : a.isEmpty = b.isEmpty := by
+  cases a <;> cases b <;> simp_all [BodiesEquiv]
+
+theorem evalNode_setBodies (sem : Sem V) (sub) (ρ : Env V) (n : Node) (subs' : List (String × Graph))
+    (h : BodiesEquiv sub subs' n.subs) :
+    evalNode sem sub ρ (n.setBodies n.caps subs') = evalNode sem sub ρ n := by
+  cases n with
+  | mk id op dom ov ins outs attrs mp caps subs =>
+    simp only [Node.subs] at h
+    have hempty := bodies_isEmpty sub subs' subs h
+    have hmap := bodies_map_eq sub (ρ.restrict caps) subs' subs h
+    simp only [Node.setBodies, Node.caps, Node.subs, Node.id, Node.op, Node.domain, Node.overload, Node.inputs,
+      Node.outputs, Node.attrs, Node.mprops, evalNode, nodeOutputs, hempty, hmap]
+    rfl
+
+theorem evalNodes_map_congr (f : Env V → Node → Option (Env V)) (g : Node → Node) (l : List Node)
+    (h : ∀ n ∈ l, ∀ ρ, f ρ (g n) = f ρ n) : ∀ ρ, evalNodes f ρ (l.map g) = evalNodes f ρ l := by
+  induction l with
+  | nil => intro ρ; rfl
+  | cons a r ih =>
+    intro ρ
+    simp only [List.map_cons, evalNodes, h a (by simp)]
+    cases f ρ a with
+    | none => rfl
+    | some ρ1 => simp [ih (fun n hn => h n (by simp [hn]))]
+
 end OV.C07
